@@ -6,6 +6,13 @@ known/<finding>.cases.gz with exactly those pairs that satisfy the finding's PRE
 cause). Pairs that fail but do not match the predicate are printed and are NOT listed: they are new violations to triage."""
 import gzip, json, os, subprocess, sys, tempfile
 
+
+def has(case, extra):
+    """is the catalogue extra part of the case ('*all*' stands for every extra)"""
+    extras = case.get("extras", ())
+    return extra in extras or "*all*" in extras
+
+
 PREDICATES = {
     # interplay of the refinement stages (merge -> overlap removal -> incomplete removal): an input is dropped although no kept
     # hit excuses it; an input-only signature of the three mechanisms matches 91% of all cases, so the clause is the predicate
@@ -15,8 +22,8 @@ PREDICATES = {
     and case.get("rep") == "zz" and (bool(case.get("ext")) or case.get("origin") == "file"),
     # a Prepeptide on the frame-shifted gene of the 'codonstart' layout
     "C10-F1": lambda case, clause: (
-        (case.get("layout") == "codonstart" and "prepeptide" in case.get("extras", ()))
-        or (case.get("layout") == "origin-codonstart" and "prepeptide-plain" in case.get("extras", ())))
+        (case.get("layout") == "codonstart" and has(case, "prepeptide"))
+        or (case.get("layout") == "origin-codonstart" and has(case, "prepeptide-plain")))
     and clause in ("genbank-description-differs", "genbank-not-a-fixed-point", "json-description-differs", "json-not-a-fixed-point"),
     # free-text qualifier values longer than a GenBank line without a space to wrap at
     "C10-F2": lambda case, clause: case.get("sideload") == "unbreakable-values" and clause == "genbank-description-differs",
@@ -27,7 +34,7 @@ PREDICATES = {
     "C12-F2": lambda case, clause: case.get("sideload") == "unbreakable-values"
     and clause in ("feature-missing-or-shifted", "feature-unexpected", "subregions-differ"),
     # a Prepeptide on a gene that a sideloaded region boundary cuts
-    "C12-F1": lambda case, clause: "prepeptide" in case.get("extras", ()) and clause == "region-file-not-loadable"
+    "C12-F1": lambda case, clause: has(case, "prepeptide") and clause == "region-file-not-loadable"
     and case.get("sideload") in ("two-subs", "origin-sub", "origin-subs"),
 }
 
